@@ -72,7 +72,7 @@ SPEC = {
     'classify_crash': classify_crash,
     'rule': 'one case = one (POMDP, solver) pair; 12 fixed POMDPs (Tiger, 1-state clamp witnesses, corner/face initial beliefs, all-negative rewards, two S=5 GapMin regression instances) then '
             '38 (quick) / 298 (thorough) seeded dyadic POMDPs S<=4(5) A<=3 O<=3, discounts 1/2..15/16 (and 0.9/0.95/0.3), initial belief corner/face/interior; '
-            'solvers: BlindStrategies (both starts), FIB+QMDP, PBVI, PERSEUS, SARSOP (<=30/80 observed iterations), GapMin (<=12/30), look-ahead kernels. '
+            'SARSOP/GapMin run in a forked child under a 40 s / 120 s wall budget (completed iterations kept); solvers: BlindStrategies (both starts), FIB+QMDP, PBVI, PERSEUS, SARSOP (<=30/80 observed iterations), GapMin (<=12/30), look-ahead kernels. '
             'non-trivial = every line (each carries a full POMDP); distinct by protocol line',
     'modelled': ['include/AIToolbox/POMDP/Algorithms/BlindStrategies.hpp: operator() (both starts, clamp, tolerance loop)',
                  'include/AIToolbox/POMDP/Algorithms/FastInformedBound.hpp: operator() plain and SOSA-parameterised (GapMin belief-augmented POMDP)',
